@@ -62,7 +62,7 @@ CLAIMED = {
             "Randomly composed multi-client programs over the public client API (objects, services, calls, events, channels, bus listeners, discoverers, proxies/replies/ends dropped at generated points; ~60 operations) run by real aldrin::Clients against a real Broker on the deterministic simulator under generated schedules and transport FIFO sizes 1..16 and unbounded, protocol versions 1.14..1.20; oracle: no task panics, no client/connection run future ends with an unexpected-message or transport error, every awaited request-class operation has completed at quiescence and stream-class waits whose peer has provably acted have completed, call replies carry the value computed for that very call, and after all clients shut down an idle-shutdown broker stops; a busy-loop detector turns a future that never yields into a verdict.",
             "Quiescence of the simulator stands for 'the peer has acted'; stream-class waits are only judged in three situations where the harness knows the peer's action happened; wall-clock time is never a signal.",
             "property-based testing: generated API programs x generated schedules on a deterministic executor, quiescence/liveness and consistency oracles", "5 C06"),
-    "C15": ("api", "exploration",
+    "C15": ("api", "fault_enumeration",
             "Twelve multi-operation client scenarios x {transport error, EOF} injected at EVERY transport operation index k (exhaustive sweep, 3 schedules each) plus generated combinations with the four clean termination causes (shutdown request, last handle dropped, broker shutdown, connection shut down) and randomised schedules; oracle: run() returns (Ok for clean causes, the transport error otherwise), every operation pending at the stop or started afterwards on every kind of handle resolves with a shutdown error / end-of-stream at quiescence, the broker-side connection ends and the broker releases the connection's state.",
             "Reads 'observes the connection as closed' as: Connection::run ends Ok for the client-side clean causes; the set of probe operations after the stop is a fixed list per handle kind.",
             "property-based testing with exhaustive fault-point sweep (fault injection at every transport operation) and generated schedules", "5 C15"),
